@@ -12,7 +12,7 @@ ASSUMPTIONS = ['for exact arg-max ties (class exact_ties: quantised outputs) onl
                'blank is the last class; 3-D tensors only (the 2-D branch of the engine decoder is not reachable from the repository)']
 N = {'quick': 5000, 'thorough': 300000}
 CLASSES = ['random', 'lead_trail_blank', 'all_blank', 'repeats_split', 'first_nonblank', 'last_class', 'identical_rows', 'different_rows', 'single_frame', 'engine', 'exact_ties']
-REQUIRED = ['tie_lines', 'engine_lines', 'standalone_lines', 'filtration_lines', 'run_ocr_lines']
+REQUIRED = ['separator_lines', 'run_ocr_logits_compared', 'tie_lines', 'engine_lines', 'standalone_lines', 'filtration_lines', 'run_ocr_lines']
 
 
 def setup(ctx):
@@ -131,6 +131,12 @@ def check(case, mon, ctx):
     if case['cls'] == 'engine':
         eng = ctx.eng
         decoded, logits = eng.run_ocr(case['data'])   # logits: N, T, C
+        with ctx.torch.no_grad():
+            direct = ctx.net(ctx.torch.from_numpy(case['data']).float().permute(0, 3, 1, 2) / 255.0).permute(0, 2, 1).numpy()
+        mon.count('run_ocr_logits_compared')
+        if logits.shape != direct.shape or np.abs(logits - direct).max(initial=0) > 1e-5 * max(1.0, float(np.abs(direct).max(initial=0))):
+            mon.violation('run_ocr-logits-are-the-network-output', {'max_abs_diff': float(np.abs(logits - direct).max(initial=0)) if logits.shape == direct.shape else None,
+                          'shapes': [list(logits.shape), list(direct.shape)]})
         sc = np.ascontiguousarray(np.transpose(logits, (0, 2, 1)))
         chars = list(eng.characters[:-1])
         nontriv, am = check_tensor(sc, list(eng.characters), chars, mon, ctx, site='run_ocr')
@@ -163,5 +169,22 @@ def check(case, mon, ctx):
         mon.mark_nontrivial({'ties': sc})
         return
     nontriv, _ = check_tensor(case['scores'], chars + ['​'], chars, mon, ctx, expected_paths=case['am'])
+    # the stand-alone decoder with a symbol separator and a character table of multi-character symbols
+    sc = case['scores']
+    table = ['<%d>' % k if k % 3 == 0 else chr(0x61 + k) for k in range(C - 1)]
+    for sep in (' ', '|'):
+        gd = ctx.decoders.GreedyDecoder(table + [ctx.decoders.BLANK_SYMBOL], symbol_separator=sep)
+        n = 0
+        lp = ctx.torch.log_softmax(ctx.torch.from_numpy(sc[n].T.astype(np.float64)), dim=1).numpy()
+        am = sc[n].argmax(axis=0)
+        syms, prev = [], None
+        for a in am:
+            if a != prev and a != C - 1:
+                syms.append(table[a])
+            prev = a
+        got = gd(lp).best_hyp()
+        mon.count('separator_lines')
+        if got != sep.join(syms):
+            mon.violation('standalone-greedy', {'site': 'symbol_separator=%r, multi-character symbols' % sep, 'got': got, 'expected': sep.join(syms), 'path': am})
     if nontriv:
         mon.mark_nontrivial({'paths': case['am'], 'C': C})
